@@ -18,6 +18,11 @@ pub open spec fn u4(s: Seq<u8>) -> Option<int> {
         _ => None,
     }
 }
+// RFC 3629: the bytes after the lead byte of a multi-byte sequence are continuation bytes (never ASCII)
+pub open spec fn cont_ok(s: Seq<u8>) -> bool {
+    let w = cp_width(s[0]);
+    (w < 2 || s[1] >= 0x80) && (w < 3 || s[2] >= 0x80) && (w < 4 || s[3] >= 0x80)
+}
 // one item at the head of s: (input bytes it takes, bytes it denotes); None if no item starts here
 pub open spec fn str_item(s: Seq<u8>) -> Option<(int, Seq<u8>)> {
     if s.len() == 0 || s.len() < cp_width(s[0]) { None }
@@ -35,7 +40,7 @@ pub open spec fn str_item(s: Seq<u8>) -> Option<(int, Seq<u8>)> {
             match simple_esc(s[1]) { Some(b) => Some((2int, seq![b])), None => None }
         }
     }
-    else if is_safe(cp_value(s)) { Some((cp_width(s[0]), s.subrange(0, cp_width(s[0])))) }
+    else if is_safe(cp_value(s)) && cont_ok(s) { Some((cp_width(s[0]), s.subrange(0, cp_width(s[0])))) }
     else { None }
 }
 // (offset of the closing quote, bytes denoted); None if the text is not a string body followed by a quote
@@ -109,7 +114,7 @@ pub proof fn lemma_u4_digits(s: Seq<u8>)
 // ---- one-step unfoldings of unesc, by the kind of item at the head (used by the proof of json_unescape) ----
 pub proof fn lemma_unesc_safe(s: Seq<u8>)
     requires unesc(s) is Some, s.len() > 0, s[0] != 0x22, s[0] != 0x5C
-    ensures is_safe(cp_value(s)), s.len() >= cp_width(s[0]),
+    ensures is_safe(cp_value(s)), s.len() >= cp_width(s[0]), cont_ok(s),
         unesc(s.subrange(cp_width(s[0]), s.len() as int)) is Some,
         unesc(s) == Some((cp_width(s[0]) + unesc(s.subrange(cp_width(s[0]), s.len() as int))->Some_0.0,
                           s.subrange(0, cp_width(s[0])) + unesc(s.subrange(cp_width(s[0]), s.len() as int))->Some_0.1)),
@@ -196,5 +201,66 @@ pub proof fn lemma_jstr_bounds(input: Seq<u8>, q: int)
         let b = input.subrange(q + 1, input.len() as int);
         lemma_unesc_bounds(b);
         assert(b[unesc(b)->Some_0.0] == input[q + 1 + unesc(b)->Some_0.0]);
+    }
+}
+
+// ---- skipping a string without decoding it (what burn_string does): position of the first quote that is not the second
+// character of a backslash pair, or the end of input
+pub open spec fn bs_end(s: Seq<u8>, i: int) -> int
+    decreases s.len() - i
+{
+    if i < 0 || i >= s.len() { i }
+    else if s[i] == 0x22 { i }
+    else if s[i] == 0x5C && i + 1 < s.len() { bs_end(s, i + 2) }
+    else { bs_end(s, i + 1) }
+}
+pub proof fn lemma_bs_end_bounds(s: Seq<u8>, i: int)
+    requires 0 <= i <= s.len()
+    ensures i <= bs_end(s, i) <= s.len(), bs_end(s, i) < s.len() ==> s[bs_end(s, i)] == 0x22
+    decreases s.len() - i
+{
+    if i < s.len() && s[i] != 0x22 {
+        if s[i] == 0x5C && i + 1 < s.len() { lemma_bs_end_bounds(s, i + 2); } else { lemma_bs_end_bounds(s, i + 1); }
+    }
+}
+// on a legal string body the skip stops exactly at the closing quote the decoder finds
+pub proof fn lemma_bs_end_unesc(s: Seq<u8>, i: int)
+    requires 0 <= i <= s.len(), unesc(s.subrange(i, s.len() as int)) is Some
+    ensures bs_end(s, i) == i + unesc(s.subrange(i, s.len() as int))->Some_0.0
+    decreases s.len() - i
+{
+    let r = s.subrange(i, s.len() as int);
+    lemma_unesc_bounds(r);
+    assert(r[0] == s[i]);
+    if r[0] == 0x22 {
+        lemma_unesc_quote(r);
+    } else if r[0] == 0x5C {
+        lemma_unesc_backslash(r);
+        assert(r[1] == s[i + 1]);
+        if r[1] == 0x75 {
+            lemma_unesc_u(r);
+            assert(r.subrange(6, r.len() as int) =~= s.subrange(i + 6, s.len() as int));
+            lemma_bs_end_unesc(s, i + 6);
+            assert(r[2] == s[i + 2] && r[3] == s[i + 3] && r[4] == s[i + 4] && r[5] == s[i + 5]);
+            // \u, then four hex digits, none of which is a quote or a backslash
+            assert(bs_end(s, i) == bs_end(s, i + 2));
+            assert(bs_end(s, i + 2) == bs_end(s, i + 3));
+            assert(bs_end(s, i + 3) == bs_end(s, i + 4));
+            assert(bs_end(s, i + 4) == bs_end(s, i + 5));
+            assert(bs_end(s, i + 5) == bs_end(s, i + 6));
+        } else {
+            lemma_unesc_simple(r);
+            assert(r.subrange(2, r.len() as int) =~= s.subrange(i + 2, s.len() as int));
+            lemma_bs_end_unesc(s, i + 2);
+        }
+    } else {
+        lemma_unesc_safe(r);
+        let w = cp_width(r[0]);
+        assert(r.subrange(w, r.len() as int) =~= s.subrange(i + w, s.len() as int));
+        lemma_bs_end_unesc(s, i + w);
+        assert(bs_end(s, i) == bs_end(s, i + 1));
+        if w >= 2 { assert(r[1] == s[i + 1]); assert(bs_end(s, i + 1) == bs_end(s, i + 2)); }
+        if w >= 3 { assert(r[2] == s[i + 2]); assert(bs_end(s, i + 2) == bs_end(s, i + 3)); }
+        if w >= 4 { assert(r[3] == s[i + 3]); assert(bs_end(s, i + 3) == bs_end(s, i + 4)); }
     }
 }
